@@ -39,7 +39,7 @@ def forwarder(m):
     for b in m.prog.user_bodies():
         if b.kind not in ('fn', 'method') or b.locals[0] != '()':
             continue
-        if b.argc < 1 or b.locals[1] != 'std::string::String':
+        if b.argc < 1 or not any(core.is_str_ty(ty) for ty in b.locals[1:b.argc + 1]):
             continue
         sw = role_switch(m, b)
         if not sw:
@@ -182,7 +182,7 @@ def table_emissions(m):
                     p = a.get('m') or a.get('c')
                     if p is None:
                         continue
-                    if rb.locals[p['l']] == 'std::string::String':
+                    if core.is_str_ty(rb.locals[p['l']]):
                         f2, o2 = wire.message_templates(m.prog, rb, a)
                         fm += f2
         out[variant] = fm
